@@ -305,3 +305,383 @@ Proof.
   - (* r *) destruct args as [|[x w] [|? ?]]; try discriminate He. injection He as <-.
     cbn in Hel. assert (wd = w) by lia. subst. apply (Hr x w). left. reflexivity.
 Qed.
+
+Lemma land_mask_mod e wd : 0 <= wd -> Z.land (mask wd) e = e mod 2 ^ wd.
+Proof. intros. rewrite Z.land_comm. apply sanitize_mod. assumption. Qed.
+
+(* the statement emitted for a combinational (non-memory) net assigns the documented value *)
+Lemma fast_result_spec o args wd s :
+  op_spec o args = Some s -> fast_args_ok o args -> 0 <= wd ->
+  (o = OpNot -> wd <= nth 0 (map snd args) 0) ->
+  (o = OpNand -> wd <= Z.max (nth 0 (map snd args) 0) (nth 1 (map snd args) 0)) ->
+  (match o with OpMux | OpConcat | OpSelect _ => fast_elides o (map snd args) wd = true | _ => True end) ->
+  fast_result o args wd = Some (s mod 2 ^ wd).
+Proof.
+  intros Hs Hok Hwd Hnot Hnand Htr.
+  assert (Hsound := fun e => fast_mask_elision_sound_lemma o args wd e Hok Hwd).
+  destruct o; cbn [op_spec] in Hs;
+    try (lazymatch type of Hs with Some (concat_spec _) = _ => fail | _ => idtac end;
+         destruct args as [|[x wx] [|[y wy] [|[z wz] [|? ?]]]]; try discriminate Hs);
+    try (injection Hs as <-);
+    unfold fast_result; cbn [map snd fst] in *.
+  (* simple ops whose Python value is the documented integer *)
+  all: try (destruct (fast_elides _ _ _) eqn:Hel;
+    [ cbn [fast_pyexpr fast_simple_func map fst] in *; f_equal; symmetry; apply Z.mod_small;
+      apply Hsound; reflexivity
+    | cbn [fast_pymasked fast_simple_masked map fst]; f_equal; apply land_mask_mod; assumption ]).
+  - (* ~ *) destruct (fast_elides _ _ _) eqn:Hel.
+    + unfold fast_elides, fast_nomask in Hel. cbn in Hel. lia.
+    + cbn [fast_pymasked fast_simple_masked map fst]. f_equal.
+      rewrite Z.land_comm. apply (not_correct x wx wd). specialize (Hnot eq_refl). cbn in Hnot. lia.
+  - (* nand *) destruct (fast_elides _ _ _) eqn:Hel.
+    + unfold fast_elides, fast_nomask in Hel. cbn in Hel. lia.
+    + cbn [fast_pymasked fast_simple_masked map fst]. f_equal.
+      rewrite Z.land_comm. apply (not_correct (Z.land x y) (Z.max wx wy) wd).
+      specialize (Hnand eq_refl). cbn in Hnand. lia.
+  - (* x : never truncating here *) rewrite Htr. cbn [fast_pyexpr fast_simple_func map fst].
+    f_equal. symmetry. apply Z.mod_small. apply Hsound; [exact Htr|reflexivity].
+  - (* c *) rewrite Htr. cbn [fast_pyexpr]. destruct Hok as [Hr _].
+    assert (He : fast_concat args = concat_spec args) by (apply fast_concat_spec; assumption).
+    f_equal. rewrite <- He. symmetry. apply Z.mod_small. apply Hsound; [exact Htr|reflexivity].
+  - (* s *) rewrite Htr. cbn [fast_pyexpr]. destruct Hok as [Hr [_ [_ Hsel]]].
+    destruct (Hr x wx (or_introl eq_refl)) as [Hw Hx].
+    assert (He : fast_select x wx idx = select_spec x idx)
+      by (apply fast_select_spec; try assumption; apply (Hsel idx eq_refl)).
+    f_equal. rewrite <- He. symmetry. apply Z.mod_small. apply Hsound; [exact Htr|reflexivity].
+Qed.
+
+(* ---- one net of a netlist --------------------------------------------------- *)
+
+Lemma op_spec_some o (args : list (Z * Z)) :
+  is_comb o = true -> (forall m, o <> OpMemRd m) -> arity_ok o (length args) = true ->
+  exists s, op_spec o args = Some s.
+Proof.
+  intros Hc Hm Har.
+  destruct o; try discriminate Hc; try (exfalso; eapply Hm; reflexivity);
+    try (eexists; reflexivity);
+    destruct args as [|[x wx] [|[y wy] [|[z wz] [|? ?]]]]; try discriminate Har;
+    eexists; reflexivity.
+Qed.
+
+Section Correct.
+Variable nl : netlist.
+Variable dflt : Z.
+Hypothesis Hwidths : forallb (fun x => 0 <=? wwidth x) (wires nl) = true.
+
+Lemma nth_argws n i : (i < length (nargs n))%nat ->
+  nth i (map snd (argvals nl (fun _ => 0) n)) 0 = width_of nl (arg n i).
+Proof.
+  intros Hi. unfold argvals. rewrite map_map. cbn [snd]. unfold arg.
+  rewrite (nth_indep _ 0 (width_of nl 0)) by (rewrite map_length; assumption).
+  apply map_nth.
+Qed.
+
+Lemma argws_snd v n : map snd (argvals nl v n) = argws nl n.
+Proof. unfold argvals, argws. rewrite map_map. reflexivity. Qed.
+
+Lemma nth_argws' n i : (i < length (nargs n))%nat -> nth i (argws nl n) 0 = width_of nl (arg n i).
+Proof. intros Hi. rewrite <- (argws_snd (fun _ => 0)). apply nth_argws. assumption. Qed.
+
+(* the value both sides assign to the destination of a combinational net *)
+Lemma fast_dest_agree st mv rdy v v' n :
+  (forall m a, smems st m a = assoc_d (mv m) a dflt) ->
+  Agree nl rdy v v' -> net_ok nl rdy n = true -> fast_op_ok nl n = true -> is_comb (nop n) = true ->
+  exists r, exec_spec nl st v n = upd v (ndest n) r
+            /\ fast_exec_v nl dflt mv v' n = upd v' (ndest n) r
+            /\ inrange r (width_of nl (ndest n)).
+Proof.
+  intros Hm HA Hok Hfok Hc. unfold net_ok in Hok. rewrite Hc in Hok.
+  apply andb_true_iff in Hok. destruct Hok as [Hok Hop].
+  apply andb_true_iff in Hok. destruct Hok as [Hok Har].
+  apply andb_true_iff in Hok. destruct Hok as [Hargs Hfresh].
+  destruct (argvals_agree nl Hwidths rdy v v' n HA Hargs) as [Hav [Hmv Hrange]].
+  pose proof (width_nonneg nl Hwidths (ndest n)) as Hwd.
+  destruct (nop n) eqn:Eop; try discriminate Hc.
+  16: { (* memory read *)
+    match type of Eop with _ = OpMemRd ?mm => rename mm into mid0 end.
+    exists (mem_read nl st mid0 (v (arg n 0)) mod 2 ^ width_of nl (ndest n)).
+    split; [unfold exec_spec; rewrite Eop; reflexivity|]. split; [|apply mod_range; assumption].
+    unfold fast_exec_v, fast_expr. rewrite Eop. f_equal.
+    assert (Hel : fast_elides (OpMemRd mid0) (argws nl n) (width_of nl (ndest n)) = false).
+    { unfold fast_elides, fast_nomask. cbn. lia. }
+    rewrite Hel. rewrite land_mask_mod by assumption.
+    assert (Ha0 : v (arg n 0) = v' (arg n 0)).
+    { apply HA. apply (arg0_in nl Hwidths); [assumption|].
+      simpl in Har. apply Nat.eqb_eq in Har. lia. }
+    rewrite <- Ha0. rewrite (mem_read_agree nl dflt st mv) by assumption. reflexivity. }
+  all: (
+    assert (Hlen : length (argvals nl v n) = length (nargs n)) by (unfold argvals; apply map_length);
+    destruct (op_spec_some (nop n) (argvals nl v n)) as [s Hs];
+      [ rewrite Eop; reflexivity | rewrite Eop; discriminate | rewrite Hlen, Eop; exact Har | ];
+    rewrite Eop in Hs;
+    exists (s mod 2 ^ width_of nl (ndest n));
+    split; [unfold exec_spec; rewrite Eop, Hs; reflexivity|];
+    split; [|apply mod_range; assumption];
+    unfold fast_exec_v, fast_expr; rewrite Eop; rewrite <- Hav;
+    erewrite fast_result_spec; [reflexivity | exact Hs | | assumption | | | ]).
+  (* the side conditions of fast_result_spec, from op_ok / fast_op_ok / arity *)
+  all: try (intros Habs; discriminate Habs).
+  all: try exact I.
+  all: unfold op_ok in Hop; unfold fast_op_ok in Hfok; rewrite Eop in Hop, Hfok; cbn [arity_ok] in Har;
+       try apply Nat.eqb_eq in Har; rewrite ?argws_snd.
+  all: try (split; [exact Hrange|]; split; [|split]; try (intros Habs; discriminate Habs);
+            cbn [binop_eqw] in *; rewrite ?argws_snd).
+  all: try (intros _; rewrite !nth_argws' by lia; lia).
+  all: try (intros idx0 Hidx i Hi; injection Hidx as <-; rewrite forallb_forall in Hop;
+            specialize (Hop i Hi); lia).
+  all: try (apply andb_true_iff in Hfok; destruct Hfok as [Hf1 Hf2]).
+  all: try (intros _; rewrite !nth_argws' by lia; lia).
+  all: try assumption.
+  all: intros idx0 Hidx; discriminate Hidx.
+Qed.
+
+Lemma fast_exec_agree st mv rdy v v' n :
+  (forall m a, smems st m a = assoc_d (mv m) a dflt) ->
+  Agree nl rdy v v' -> net_ok nl rdy n = true -> fast_op_ok nl n = true ->
+  Agree nl (rdy_next rdy n) (exec_spec nl st v n) (fast_exec_v nl dflt mv v' n).
+Proof.
+  intros Hm HA Hok Hfok. unfold rdy_next. destruct (is_comb (nop n)) eqn:Hc.
+  - destruct (fast_dest_agree st mv rdy v v' n Hm HA Hok Hfok Hc) as [r [E1 [E2 Hr]]].
+    rewrite E1, E2. unfold net_ok in Hok. rewrite Hc in Hok.
+    assert (Hfresh : ~ In (ndest n) rdy).
+    { intro Hin. apply mem_in_In in Hin. rewrite Hin in Hok.
+      rewrite andb_false_r in Hok. simpl in Hok. discriminate. }
+    intros w [<-|Hin].
+    + rewrite !upd_same. split; [reflexivity|assumption].
+    + assert (w <> ndest n) by (intro; subst; contradiction).
+      rewrite !upd_other by assumption. apply HA. assumption.
+  - unfold exec_spec, fast_exec_v. destruct (nop n); try discriminate Hc; assumption.
+Qed.
+
+(* a wire that is ready keeps its value: later nets drive other wires *)
+Lemma spec_stable st : forall ns rdy u w,
+  In w rdy -> nets_ok nl rdy ns = true -> fold_left (exec_spec nl st) ns u w = u w.
+Proof.
+  induction ns as [|n r IH]; intros rdy u w Hin Hok; simpl; [reflexivity|].
+  simpl in Hok. apply andb_true_iff in Hok. destruct Hok as [Hn1 Hr].
+  rewrite (IH (rdy_next rdy n)); [| |assumption].
+  - unfold exec_spec. unfold net_ok in Hn1.
+    destruct (is_comb (nop n)) eqn:Hc.
+    + assert (Hne : w <> ndest n).
+      { intro Heq. rewrite Heq in Hin. apply mem_in_In in Hin. rewrite Hin in Hn1.
+        rewrite andb_false_r in Hn1. simpl in Hn1. discriminate. }
+      destruct (nop n); try reflexivity;
+        try (destruct (op_spec _ _); [apply upd_other; assumption|reflexivity]);
+        apply upd_other; assumption.
+    + destruct (nop n); try discriminate Hc; reflexivity.
+  - unfold rdy_next. destruct (is_comb (nop n)); [right|]; assumption.
+Qed.
+
+Lemma fast_result_reg x w wd : 0 <= w -> 0 <= wd -> inrange x w ->
+  fast_result OpReg [(x, w)] wd = Some (x mod 2 ^ wd).
+Proof.
+  intros Hw Hwd Hx. unfold fast_result, fast_elides, fast_nomask. cbn.
+  destruct (wd =? w) eqn:E.
+  - assert (wd = w) by lia. subst. f_equal. symmetry. apply Z.mod_small. exact Hx.
+  - f_equal. apply land_mask_mod. assumption.
+Qed.
+
+Lemma fast_fold_agree st mv0 (VF : wid -> Z) :
+  (forall m a, smems st m a = assoc_d (mv0 m) a dflt) ->
+  forall ns rdy v v' rgs rg ms ws vf rgf wsf,
+  Agree nl rdy v v' -> nets_ok nl rdy ns = true -> fast_nets_ok nl rdy ns = true ->
+  VF = fold_left (exec_spec nl st) ns v ->
+  (forall r, rgs r = rg r) ->
+  (forall m a, ms m a = assoc_d (fold_left fast_apply_write ws mv0 m) a dflt) ->
+  fold_left (fast_exec nl dflt mv0) ns (v', rg, ws) = (vf, rgf, wsf) ->
+  Agree nl (fold_left (rdy_next) ns rdy) VF vf
+  /\ (forall r, fold_left (regnext_spec nl VF) ns rgs r = rgf r)
+  /\ (forall m a, fold_left (write_spec VF) ns ms m a
+                  = assoc_d (fold_left fast_apply_write wsf mv0 m) a dflt).
+Proof.
+  intros Hm. induction ns as [|n ns' IH];
+    intros rdy v v' rgs rg ms ws vf rgf wsf HA Hok Hfok HVF Hrg Hms Hfold.
+  - cbn in Hfold. injection Hfold as <- <- <-. subst VF. cbn. auto.
+  - cbn [fold_left] in *. cbn [fast_exec] in Hfold.
+    cbn [nets_ok fast_nets_ok] in Hok, Hfok.
+    apply andb_true_iff in Hok. destruct Hok as [Hn Hok'].
+    apply andb_true_iff in Hfok. destruct Hfok as [Hfn Hfok'].
+    unfold fast_net_ok in Hfn. apply andb_true_iff in Hfn. destruct Hfn as [Hfop Hfseq].
+    (* arguments of a sequential net are ready here, hence final *)
+    assert (Hseqarg : is_comb (nop n) = false -> forall i, (i < length (nargs n))%nat ->
+              VF (arg n i) = v' (arg n i) /\ inrange (v' (arg n i)) (width_of nl (arg n i))).
+    { intros Hc i Hi. rewrite Hc in Hfseq. apply andb_true_iff in Hfseq. destruct Hfseq as [Hrdy _].
+      rewrite forallb_forall in Hrdy.
+      assert (Hin : In (arg n i) rdy) by (apply mem_in_In, Hrdy, nth_in_args; assumption).
+      destruct (HA _ Hin) as [Heq Hr]. rewrite <- Heq. split; [|assumption].
+      rewrite HVF. rewrite (spec_stable st ns' (rdy_next rdy n)); [| |assumption].
+      - unfold exec_spec. destruct (nop n); try discriminate Hc; reflexivity.
+      - unfold rdy_next. rewrite Hc. assumption. }
+    assert (Harity : is_comb (nop n) = false -> arity_ok (nop n) (length (nargs n)) = true).
+    { intros Hc. rewrite Hc in Hfseq. apply andb_true_iff in Hfseq. apply Hfseq. }
+    eapply (IH (rdy_next rdy n)); try eassumption.
+    + apply fast_exec_agree; assumption.
+    + (* registers *)
+      intros r. unfold regnext_spec, fast_exec_r. destruct (nop n) eqn:Eop; try apply Hrg.
+      specialize (Harity eq_refl). specialize (Hseqarg eq_refl).
+      cbn in Harity. apply Nat.eqb_eq in Harity.
+      destruct (Hseqarg 0%nat) as [Heq Hr]; [lia|].
+      unfold argvals. unfold arg in *. destruct (nargs n) as [|a0 [|a1 rest]]; try discriminate Harity.
+      cbn [map nth] in *.
+      rewrite fast_result_reg by (try apply (width_nonneg nl Hwidths); assumption).
+      rewrite Heq. unfold upd. destruct (r =? ndest n); [reflexivity|apply Hrg].
+    + (* memory writes *)
+      intros m a. unfold write_spec, fast_exec_w. destruct (nop n) eqn:Eop; try apply Hms.
+      specialize (Harity eq_refl). specialize (Hseqarg eq_refl).
+      cbn in Harity. apply Nat.eqb_eq in Harity.
+      destruct (Hseqarg 0%nat) as [H0 _]; [lia|].
+      destruct (Hseqarg 1%nat) as [H1 _]; [lia|].
+      destruct (Hseqarg 2%nat) as [H2 _]; [lia|].
+      rewrite H0, H1, H2. destruct (v' (arg n 2) =? 0); [apply Hms|].
+      rewrite fold_left_app. cbn [fold_left fast_apply_write].
+      set (MV := fold_left fast_apply_write ws mv0) in *.
+      unfold upd. destruct (m =? m0) eqn:Em; [|apply Hms].
+      unfold assoc_d, dict_set. simpl. rewrite (Z.eqb_sym a).
+      destruct (v' (arg n 0) =? a) eqn:Ea; [reflexivity|].
+      assert (m = m0) by lia. subst. specialize (Hms m0 a). unfold assoc_d in Hms. exact Hms.
+Qed.
+
+Hypothesis Hconsts :
+  forallb (fun x => match wkind x with
+                    | KConst c => inrangeb c (wwidth x)
+                    | _ => true
+                    end) (wires nl) = true.
+
+(* abstraction relation between FastSimulation's state and the reference state *)
+Definition RF (st : state) (fs : fstate) : Prop :=
+  (forall r, sregs st r = fregs fs r)
+  /\ (forall m a, smems st m a = assoc_d (fmems fs m) a dflt).
+
+Lemma fast_base_agree st fs ins :
+  RF st fs -> legal_ins nl ins -> legal_regs nl (sregs st) ->
+  Agree nl (rdy0 nl) (base_val nl dflt st ins) (fast_base nl dflt fs ins).
+Proof.
+  intros [HR1 HR2] Hins Hregs w Hin.
+  unfold rdy0 in Hin. apply filter_In in Hin. destruct Hin as [_ Hb].
+  unfold is_base in Hb. unfold base_val, fast_base.
+  destruct (find_wire (wires nl) w) as [x|] eqn:E; [|discriminate].
+  pose proof (find_wire_In _ _ _ E) as [Hx _].
+  destruct (wkind x) eqn:Ek; try discriminate.
+  - split; [reflexivity|]. apply Hins. unfold is_input, kind_of. rewrite E, Ek. reflexivity.
+  - split; [reflexivity|].
+    rewrite forallb_forall in Hconsts. specialize (Hconsts x Hx). rewrite Ek in Hconsts.
+    apply inrangeb_spec in Hconsts. unfold width_of. rewrite E. assumption.
+  - split; [apply HR1|]. apply Hregs. unfold is_reg, kind_of. rewrite E, Ek. reflexivity.
+Qed.
+
+Hypothesis Hnets : nets_ok nl (rdy0 nl) (nets nl) = true.
+Hypothesis Hfast : fast_wfb nl = true.
+
+Theorem fast_step_refines st fs ins :
+  RF st fs -> legal_ins nl ins -> legal_regs nl (sregs st) ->
+  let '(v, st') := step nl dflt st ins in
+  let '(v', fs') := fast_step nl dflt fs ins in
+  Agree nl (rdy_final nl) v v' /\ RF st' fs' /\ legal_regs nl (sregs st').
+Proof.
+  intros HR Hins Hregs. unfold step, fast_step, comb.
+  pose proof (fast_base_agree st fs ins HR Hins Hregs) as HA0.
+  destruct HR as [HR1 HR2].
+  destruct (fold_left (fast_exec nl dflt (fmems fs)) (nets nl)
+                      (fast_base nl dflt fs ins, fregs fs, [])) as [[vf rgf] wsf] eqn:Efold.
+  set (VF := fold_left (exec_spec nl st) (nets nl) (base_val nl dflt st ins)).
+  destruct (fast_fold_agree st (fmems fs) VF HR2 (nets nl) (rdy0 nl) _ _ (sregs st) (fregs fs)
+              (smems st) [] vf rgf wsf HA0 Hnets Hfast eq_refl HR1 HR2 Efold) as [HA [Hrg Hms]].
+  split; [exact HA|]. split.
+  - split; cbn [sregs smems fregs fmems]; assumption.
+  - cbn [sregs]. apply regs_legal; assumption.
+Qed.
+
+End Correct.
+
+(* ---- packaged statements ---------------------------------------------------- *)
+
+Theorem fast_step_refines_wf nl dflt st fs ins :
+  wfb nl = true -> fast_wfb nl = true ->
+  RF dflt st fs -> legal_ins nl ins -> legal_regs nl (sregs st) ->
+  let '(v, st') := step nl dflt st ins in
+  let '(v', fs') := fast_step nl dflt fs ins in
+  (forall x, In x (wires nl) ->
+     v' (wname x) = v (wname x) /\ inrange (v' (wname x)) (width_of nl (wname x)))
+  /\ RF dflt st' fs' /\ legal_regs nl (sregs st').
+Proof.
+  intros Hwf Hfw HR Hi Hr. destruct (wfb_parts nl Hwf) as [H1 [H2 [H3 [H4 H5]]]].
+  pose proof (fast_step_refines nl dflt H1 H2 H3 Hfw st fs ins HR Hi Hr) as H.
+  destruct (step nl dflt st ins) as [v st'].
+  destruct (fast_step nl dflt fs ins) as [v' fs'].
+  destruct H as [HA [HR' HL]]. split; [|auto].
+  intros x Hx. rewrite forallb_forall in H5. specialize (H5 x Hx).
+  apply mem_in_In in H5. destruct (HA _ H5) as [Heq Hrange].
+  rewrite <- Heq. split; [reflexivity|assumption].
+Qed.
+
+Theorem fast_run_refines nl dflt : wfb nl = true -> fast_wfb nl = true ->
+  forall inss st fs,
+  RF dflt st fs -> Forall (legal_ins nl) inss -> legal_regs nl (sregs st) ->
+  let '(vs, st') := run nl dflt st inss in
+  let '(vs', fs') := fast_run nl dflt fs inss in
+  Forall2 (wires_agree nl) vs vs' /\ RF dflt st' fs' /\ legal_regs nl (sregs st').
+Proof.
+  intros Hwf Hfw. induction inss as [|ins rest IH]; intros st fs HR Hins Hregs; cbn [run fast_run].
+  - auto.
+  - inversion Hins as [|? ? Hi Hrest]; subst.
+    pose proof (fast_step_refines_wf nl dflt st fs ins Hwf Hfw HR Hi Hregs) as Hs.
+    destruct (step nl dflt st ins) as [v st1].
+    destruct (fast_step nl dflt fs ins) as [v' fs1].
+    destruct Hs as [Hv [HR1 HL1]].
+    specialize (IH st1 fs1 HR1 Hrest HL1).
+    destruct (run nl dflt st1 rest) as [vs st2].
+    destruct (fast_run nl dflt fs1 rest) as [vs' fs2].
+    destruct IH as [Hvs [HR2 HL2]]. cbv iota beta.
+    split; [constructor; assumption|auto].
+Qed.
+
+Lemma fast_init_related nl dflt regmap memmap :
+  RF dflt (init_state nl dflt regmap memmap) (fast_init nl dflt regmap memmap).
+Proof.
+  unfold RF, init_state, fast_init. cbn [sregs smems fregs fmems].
+  split; [reflexivity|].
+  intros m a. destruct (find (fun p => fst p =? m) memmap) as [[k d]|]; reflexivity.
+Qed.
+
+(* every wire, every cycle, every legal input sequence, every legal initial state *)
+Theorem fast_refines_spec nl dflt regmap memmap inss :
+  wfb nl = true -> fast_wfb nl = true ->
+  legal_init nl dflt regmap -> Forall (legal_ins nl) inss ->
+  Forall2 (wires_agree nl)
+    (fst (run nl dflt (init_state nl dflt regmap memmap) inss))
+    (fst (fast_run nl dflt (fast_init nl dflt regmap memmap) inss)).
+Proof.
+  intros Hwf Hfw Hinit Hins.
+  pose proof (fast_run_refines nl dflt Hwf Hfw inss _ _
+                (fast_init_related nl dflt regmap memmap) Hins Hinit) as H.
+  destruct (run nl dflt (init_state nl dflt regmap memmap) inss) as [vs st'].
+  destruct (fast_run nl dflt (fast_init nl dflt regmap memmap) inss) as [vs' fs'].
+  apply H.
+Qed.
+
+(* ---- the truncating mux / concat / select defect ------------------------------------
+   A sanity_check-valid net whose destination is narrower than the natural result gets
+   the statement text `dest = mask & <expr>` with <expr> unparenthesised.  Witness: a 1-bit
+   destination of  mux(sel/1, f/4, t/4)  with sel = 1, t = 11. *)
+Definition trunc_mux_nl : netlist :=
+  {| wires := [ mkWire 1 1 KInput; mkWire 2 4 KInput; mkWire 3 4 KInput; mkWire 4 1 KWire ];
+     nets := [ mkNet OpMux [1; 2; 3] 4 ];
+     mems := [] |}.
+
+Definition trunc_mux_ins : wid -> Z := fun w => if w =? 1 then 1 else if w =? 2 then 0 else 11.
+
+Lemma fast_truncating_refuted_lemma :
+  exists nl dflt ins,
+    wfb nl = true /\ legal_ins nl ins
+    /\ fst (fast_step nl dflt (fast_init nl dflt [] []) ins) 4
+       <> fst (step nl dflt (init_state nl dflt [] []) ins) 4.
+Proof.
+  exists trunc_mux_nl, 0, trunc_mux_ins. split; [vm_compute; reflexivity|]. split.
+  - intros w Hw. unfold is_input, kind_of, trunc_mux_nl in Hw. cbn in Hw.
+    unfold width_of, trunc_mux_nl, trunc_mux_ins, inrange. cbn.
+    destruct (1 =? w) eqn:E1; [assert (w = 1) by lia; subst; cbn; lia|].
+    destruct (2 =? w) eqn:E2; [assert (w = 2) by lia; subst; cbn; lia|].
+    destruct (3 =? w) eqn:E3; [assert (w = 3) by lia; subst; cbn; lia|].
+    destruct (4 =? w) eqn:E4; discriminate Hw.
+  - vm_compute. discriminate.
+Qed.
